@@ -73,6 +73,8 @@ def seq_of(vm, v):
     """sequence contents of a Vec / slice / array value or a reference to one"""
     while isinstance(v, Ref):
         v = vm.deref(v)
+    if isinstance(v, Adt) and v.ty == 'Cow' and len(v.fields) == 1:
+        return seq_of(vm, v.fields[0])     # Cow<[T]> derefs to the borrowed / owned slice
     if isinstance(v, VecV):
         return v.items
     if isinstance(v, tuple):
@@ -205,6 +207,9 @@ def _deref(vm, cal, args):
     v = vm.deref(r)
     if isinstance(v, Ref):
         return v
+    if isinstance(v, Adt) and v.ty == 'Cow' and len(v.fields) == 1:
+        inner = v.fields[0]
+        return inner if isinstance(inner, Ref) else Ref(r.cell, r.path + (0,))
     return r
 
 
@@ -1123,6 +1128,86 @@ def _dedup_by(vm, cal, args):
     return ()
 
 
+@reg(('Vec', None, 'dedup_by_key'))
+def _dedup_by_key(vm, cal, args):
+    """removes all but the first of CONSECUTIVE elements whose keys are equal (std contract)"""
+    r = as_ref(args[0])
+    v = vec_at(vm, r)
+    out = []
+    prev_key = None
+    for it in v.items:
+        cur = vm.new_ref(it)
+        k = vm.call_value(args[1], [cur])
+        it = vm.deref(cur)
+        if out and truthy(vm, key_eq(vm, k, prev_key)):
+            continue
+        out.append(it)
+        prev_key = k
+    vm.store(r, VecV(out, v.kind))
+    return ()
+
+
+@reg(('Vec', None, 'dedup'))
+def _dedup(vm, cal, args):
+    r = as_ref(args[0])
+    v = vec_at(vm, r)
+    out = []
+    for it in v.items:
+        if out and truthy(vm, key_eq(vm, it, out[-1])):
+            continue
+        out.append(it)
+    vm.store(r, VecV(out, v.kind))
+    return ()
+
+
+# ---- HashMap entry API: an Entry is (reference to the map, key, index of the entry or None)
+@reg(('HashMap', None, 'entry'), ('BTreeMap', None, 'entry'))
+def _map_entry(vm, cal, args):
+    r = as_ref(args[0])
+    m = vm.deref(r)
+    while isinstance(m, Ref):
+        r = m
+        m = vm.deref(r)
+    i = map_find(vm, m, args[1])
+    return Adt('MapEntry', 0 if i is None else 1, (r, args[1]))
+
+
+def _entry_insert_default(vm, e, make):
+    r, key = e.fields
+    m = vm.deref(r)
+    i = map_find(vm, m, key)
+    if i is None:
+        vm.store(r, MapV(m.items + ((key, make()),), m.kind))
+        i = len(m.items)
+    return Ref(r.cell, r.path + (('idx', i), 1))
+
+
+@reg(('Entry', None, 'or_insert'))
+def _entry_or_insert(vm, cal, args):
+    return _entry_insert_default(vm, args[0], lambda: args[1])
+
+
+@reg(('Entry', None, 'or_insert_with'))
+def _entry_or_insert_with(vm, cal, args):
+    return _entry_insert_default(vm, args[0], lambda: vm.call_value(args[1], []))
+
+
+@reg(('Entry', None, 'or_default'))
+def _entry_or_default(vm, cal, args):
+    return _entry_insert_default(vm, args[0], lambda: default_of_type(vm, (cal.dest_ty or '').replace('&mut ', '').strip() or 'usize'))
+
+
+@reg(('Entry', None, 'and_modify'))
+def _entry_and_modify(vm, cal, args):
+    e = args[0]
+    r, key = e.fields
+    m = vm.deref(r)
+    i = map_find(vm, m, key)
+    if i is not None:
+        vm.call_value(args[1], [Ref(r.cell, r.path + (('idx', i), 1))])
+    return e
+
+
 @reg(('Vec', None, 'retain'), ('VecDeque', None, 'retain'))
 def _retain(vm, cal, args):
     r = as_ref(args[0])
@@ -1315,6 +1400,14 @@ def into_iter(vm, v, by_ref=False):
 
 def iter_next(vm, it):
     """-> (item or None, new iterator)"""
+    if isinstance(it, Adt):
+        # an iterator type of the crate (e.g. TrackDistanceOkIterator): run its own Iterator::next
+        c = vm.prog.impl_methods.get((it.ty, 'Iterator', 'next'))
+        if not c:
+            raise Unmodelled("iterator %r" % (it,))
+        cell = Cell(it, 'crate_iter')
+        r = vm.exec_fn(c[0][0], [Ref(cell)], {})
+        return (r.fields[0] if r.variant == 1 else None), cell.v
     k = it.kind
     a = it.a
     if k == 'list':
@@ -1420,6 +1513,35 @@ def iter_next(vm, it):
         if x is not None:
             vm.call_value(a['f'], [vm.new_ref(x)])
         return x, Iter('inspect', src=src, f=a['f'])
+    if k == 'map_while':
+        if a.get('done'):
+            return None, it
+        x, src = iter_next(vm, a['src'])
+        if x is None:
+            return None, Iter('map_while', src=src, f=a['f'], done=True)
+        y = vm.call_value(a['f'], [x])
+        if y.variant == 0:
+            return None, Iter('map_while', src=src, f=a['f'], done=True)
+        return y.fields[0], Iter('map_while', src=src, f=a['f'])
+    if k == 'skip_while':
+        src = a['src']
+        if not a.get('started'):
+            while True:
+                x, src = iter_next(vm, src)
+                if x is None:
+                    return None, Iter('skip_while', src=src, f=a['f'], started=True)
+                if not truthy(vm, vm.call_value(a['f'], [vm.new_ref(x)])):
+                    return x, Iter('skip_while', src=src, f=a['f'], started=True)
+        x, src = iter_next(vm, src)
+        return x, Iter('skip_while', src=src, f=a['f'], started=True)
+    if k == 'scan':
+        x, src = iter_next(vm, a['src'])
+        if x is None:
+            return None, it
+        y = vm.call_value(a['f'], [Ref(a['state']), x])
+        if y.variant == 0:
+            return None, Iter('list', items=(), pos=0)
+        return y.fields[0], Iter('scan', src=src, f=a['f'], state=a['state'])
     raise Unmodelled("iterator kind " + k)
 
 
@@ -1436,7 +1558,14 @@ def drain_iter(vm, it, limit=10000):
 
 @reg(('*', 'IntoIterator', 'into_iter'))
 def _into_iter(vm, cal, args):
-    return into_iter(vm, args[0])
+    v = args[0]
+    if isinstance(v, Adt):
+        # a crate type reached through an unbound method-level generic (`<T as IntoIterator>::into_iter`): use its impl
+        c = vm.prog.impl_methods.get((v.ty, 'IntoIterator', 'into_iter'))
+        if c:
+            fn, info = c[0]
+            return vm.exec_fn(fn, [v], {})
+    return into_iter(vm, v)
 
 
 @reg(('[T]', None, 'iter'), ('Vec', None, 'iter'), ('VecDeque', None, 'iter'), ('[T]', None, 'iter_mut'),
@@ -1502,6 +1631,55 @@ M.table[('*', 'Iterator', 'filter')] = _adaptor('filter')
 M.table[('*', 'Iterator', 'filter_map')] = _adaptor('filter_map')
 M.table[('*', 'Iterator', 'take_while')] = _adaptor('take_while')
 M.table[('*', 'Iterator', 'inspect')] = _adaptor('inspect')
+M.table[('*', 'Iterator', 'map_while')] = _adaptor('map_while')
+M.table[('*', 'Iterator', 'skip_while')] = _adaptor('skip_while')
+
+
+@reg(('*', 'Iterator', 'scan'))
+def _scan(vm, cal, args):
+    return Iter('scan', src=args[0], state=Cell(args[1], 'scan_state'), f=args[2])
+
+
+@reg(('*', 'Iterator', 'rev'), ('*', 'DoubleEndedIterator', 'rev'))
+def _rev(vm, cal, args):
+    xs = drain_iter(vm, args[0])
+    return Iter('list', items=tuple(reversed(xs)), pos=0)
+
+
+@reg(('*', 'Iterator', 'peekable'), ('*', 'Iterator', 'fuse'), ('*', 'Iterator', 'by_ref'))
+def _iter_identity_adaptors(vm, cal, args):
+    if cal.method == 'peekable':
+        raise Unmodelled("peekable")
+    return args[0]
+
+
+@reg(('*', 'Iterator', 'step_by'))
+def _step_by(vm, cal, args):
+    n = args[1].concrete()
+    if n is None:
+        raise Unmodelled("step_by with a symbolic step")
+    xs = drain_iter(vm, args[0])
+    return Iter('list', items=tuple(xs[::n]), pos=0)
+
+
+@reg(('*', 'Iterator', 'min_by_key'), ('*', 'Iterator', 'max_by_key'))
+def _extreme_by_key(vm, cal, args):
+    xs = drain_iter(vm, args[0])
+    if not xs:
+        return NONE
+    keys = [vm.call_value(args[1], [vm.new_ref(x)]) for x in xs]
+    best = 0
+    for i in range(1, len(xs)):
+        a, b = keys[i], keys[best]
+        if isfp(a):
+            better = f_rel('ge' if cal.method == 'max_by_key' else 'lt', a, b)
+        elif a.signed:
+            better = (a.e >= b.e) if cal.method == 'max_by_key' else (a.e < b.e)
+        else:
+            better = z3.UGE(a.e, b.e) if cal.method == 'max_by_key' else z3.ULT(a.e, b.e)
+        if vm.branch(better):
+            best = i
+    return SOME(xs[best])
 
 
 @reg(('*', 'Iterator', 'flat_map'))
